@@ -12,9 +12,12 @@ Variable F : nat.   (* fuel: an upper bound on the number of characters left, + 
 
 Definition mkspan (a b : marker) : span := {| sp_start := a; sp_end := b |}.
 
-(* scan_uri_escapes (1295-1351) *)
+(* char::len_utf8 *)
+Definition len_utf8 (c : N) : N := if c <? 128 then 1 else if c <? 2048 then 2 else if c <? 65536 then 3 else 4.
+
+(* scan_uri_escapes *)
 Definition scan_uri_escapes (mk : marker) : M chr :=
-  (fix go (f : nat) (width : N) (code : N) (first : bool) : M chr :=
+  (fix go (f : nat) (width : N) (len : N) (code : N) (first : bool) : M chr :=
      match f with
      | O => oof
      | S f =>
@@ -30,11 +33,12 @@ Definition scan_uri_escapes (mk : marker) : M chr :=
              else if negb (N.land byte 192 =? 128) then fail 52 mk
              else ret (width, code * 64 + N.land byte 63)) ;;
        let '(w, cd) := r in
+       let len := if first then w else len in
        skip_n_non_blank ops 3 ;;;
        if w - 1 =? 0 then
-         (if (cd <? 55296) || ((57343 <? cd) && (cd <=? 1114111)) then ret cd else fail 53 mk)
-       else go f (w - 1) cd false
-     end) 5%nat 0 0 true.
+         (if ((cd <? 55296) || ((57343 <? cd) && (cd <=? 1114111))) && (len_utf8 cd =? len) then ret cd else fail 53 mk)
+       else go f (w - 1) len cd false
+     end) 5%nat 0 0 0 true.
 
 (* scan_tag_handle (1157-1187): returns the handle string *)
 Definition scan_tag_handle (directive : bool) (mk : marker) : M (list chr) :=
